@@ -2,6 +2,7 @@ package checks
 
 import (
 	"context"
+	"errors"
 	"fmt"
 	"os"
 	"path"
@@ -47,7 +48,7 @@ type c13Case struct {
 var c13TreeCfg = h.TreeCfg{
 	MaxEntries: 12, MaxDepth: 3, Names: []string{"a", "b", "ab", "a-b", "a.b", "c", "sub", "d", "é", "x y"},
 	Kinds:  []h.Kind{h.KFile, h.KFile, h.KFile, h.KSymlink, h.KFifo, h.KChar, h.KBlock},
-	Xattrs: true, XattrNS: []string{"user.", "trusted."}, Hardlinks: true, BigFiles: true, Caps: true, FarTimes: true,
+	Xattrs: true, XattrNS: []string{"user.", "trusted."}, Hardlinks: true, BigFiles: true, Caps: true, FarTimes: true, BigXattrs: true,
 	SymTargets: []string{"a", "b", "../a", "/a", "/sub", "sub", "dangling", "../../outside", "."},
 }
 
@@ -105,7 +106,7 @@ func genC13(t *rapid.T) *c13Case {
 		c.XattrEH = rapid.Bool().Draw(t, "xeh")
 	}
 	c.Notify = rapid.Bool().Draw(t, "notify")
-	c.CrossFS = rapid.IntRange(0, 3).Draw(t, "crossfs") == 0
+	c.CrossFS = rapid.IntRange(0, 3).Draw(t, "crossfs") == 0 && smallXattrs(c.Tree)
 	c.DstSetgid = rapid.IntRange(0, 3).Draw(t, "dstsetgid") == 0
 	return c
 }
@@ -427,5 +428,138 @@ func octStr(m *int) string {
 }
 
 func TestC13(t *testing.T) {
-	h.Run(t, "C13", genC13, c13Check)
+	r := h.NewRunner("C13")
+	defer r.Finish(t)
+	h.RunWith(t, r, "", genC13, c13Check)
+	if t.Failed() {
+		return
+	}
+	t.Run("unpriv", func(t *testing.T) {
+		h.ScaleChecks(1, 40, func() { h.RunWith(t, r, "unpriv", genC13Unpriv, c13UnprivCheck) })
+	})
+}
+
+// ---------------------------------------------------------------------------
+// sub-run "unpriv": Copy runs as uid 1000 (chrooted sub-process, no capabilities)
+// over a tree it owns. Where a source entry belongs to somebody else, or another
+// owner is requested, the process cannot comply: the call may fail, but when it
+// reports success every copied entry and every directory it had to create carries
+// the owner the statement promises.
+
+type c13UnprivCase struct {
+	Tree   *h.Tree `json:"tree"`
+	Chown  []int   `json:"chown,omitempty"`
+	DstArg string  `json:"dstarg"`
+}
+
+func genC13Unpriv(t *rapid.T) *c13UnprivCase {
+	c := &c13UnprivCase{Tree: h.GenTree(t, c01UnprivCfg, "t")}
+	unprivNormalize(c.Tree)
+	switch rapid.IntRange(0, 3).Draw(t, "who") {
+	case 0:
+		c.Chown = rapid.SampledFrom([][]int{{1234, 1000}, {1000, 1234}, {0, 0}, {1000, 1000}}).Draw(t, "chown")
+	case 1:
+		if len(c.Tree.Nodes) > 0 {
+			n := &c.Tree.Nodes[rapid.IntRange(0, len(c.Tree.Nodes)-1).Draw(t, "foreignnode")]
+			own := rapid.SampledFrom([][2]uint32{{0, 0}, {1234, 1000}, {1000, 1234}}).Draw(t, "foreignowner")
+			if n.LinkTo == "" {
+				n.Uid, n.Gid = own[0], own[1]
+				n.Perm |= 0o005
+				for i := range c.Tree.Nodes {
+					if m := &c.Tree.Nodes[i]; m.LinkTo == n.Path {
+						m.Uid, m.Gid, m.Perm = n.Uid, n.Gid, n.Perm
+					}
+				}
+			}
+			c.Tree.Normalize()
+		}
+	}
+	c.DstArg = rapid.SampledFrom([]string{"/", "new", "x/y/new"}).Draw(t, "dst")
+	return c
+}
+
+func c13UnprivCheck(env *h.Env, c *c13UnprivCase) error {
+	jail := filepath.Join(env.Scratch, "jail")
+	for _, d := range []string{"src", "dst"} {
+		if err := os.MkdirAll(filepath.Join(jail, d), 0o755); err != nil {
+			return h.Infra(err)
+		}
+	}
+	if err := h.Materialise(c.Tree, filepath.Join(jail, "src")); err != nil {
+		return h.Infra(err)
+	}
+	for _, d := range []string{"src", "dst"} {
+		if err := os.Chown(filepath.Join(jail, d), 1000, 1000); err != nil {
+			return h.Infra(err)
+		}
+	}
+	os.Chmod(jail, 0o755)
+	os.Chmod(env.Scratch, 0o755)
+	srcSnap, err := h.Snapshot(filepath.Join(jail, "src"))
+	if err != nil {
+		return h.Infra(err)
+	}
+	var res c14JailResult
+	if err := runJailed(jail, "copy", 1000, c14JailArg{SrcArg: "/", DstArg: c.DstArg, Chown: c.Chown}, &res); err != nil {
+		var crash *helperCrash
+		if errors.As(err, &crash) {
+			return fmt.Errorf("unprivileged Copy: the copying %v", crash)
+		}
+		return h.Infra(err)
+	}
+	env.Class("unprivileged-copy")
+	foreign := c.Chown != nil && (c.Chown[0] != 1000 || c.Chown[1] != 1000)
+	for _, e := range srcSnap {
+		if e.Uid != 1000 || e.Gid != 1000 {
+			foreign = true
+		}
+	}
+	what := fmt.Sprintf("Copy as uid 1000 (src=\"/\" dst=%q chown=%v)", c.DstArg, c.Chown)
+	if res.Err != "" {
+		// (an unprivileged copy may fail for reasons of its own - a read-only file with
+		// user.* attributes, say; the statement does not quantify over privileges, so
+		// only what a *successful* call leaves behind is judged here)
+		env.Class("rejected")
+		return nil
+	}
+	if foreign {
+		env.Class("owner-the-process-cannot-give")
+		env.NonTrivial()
+	}
+	after, err := h.Snapshot(filepath.Join(jail, "dst"))
+	if err != nil {
+		return h.Infra(err)
+	}
+	land := strings.Trim(c.DstArg, "/")
+	for sp, se := range srcSnap {
+		dp := sp
+		if sp == "." {
+			if land == "" {
+				continue // the existing destination root keeps its owner
+			}
+			dp = land
+		} else if land != "" {
+			dp = land + "/" + sp
+		}
+		a := after[dp]
+		if a == nil {
+			return fmt.Errorf("%s succeeded but %q is missing", what, dp)
+		}
+		wu, wg := se.Uid, se.Gid
+		if c.Chown != nil {
+			wu, wg = uint32(c.Chown[0]), uint32(c.Chown[1])
+		}
+		if a.Uid != wu || a.Gid != wg {
+			return fmt.Errorf("%s succeeded but %q is owned by %d:%d, not %d:%d", what, dp, a.Uid, a.Gid, wu, wg)
+		}
+	}
+	if c.Chown != nil && land != "" {
+		// directories the call had to create above the target get the requested owner
+		for cur := path.Dir(land); cur != "." && cur != ""; cur = path.Dir(cur) {
+			if a := after[cur]; a != nil && (a.Uid != uint32(c.Chown[0]) || a.Gid != uint32(c.Chown[1])) {
+				return fmt.Errorf("%s succeeded but the created parent %q is owned by %d:%d", what, cur, a.Uid, a.Gid)
+			}
+		}
+	}
+	return nil
 }
